@@ -1,4 +1,5 @@
 import NiflyVerif.Wire.HeaderLemmas
+import NiflyVerif.Generated.Schemas
 /-!
 # C01 — load/save round trip reaches a byte-level fixed point (file level)
 
@@ -6,9 +7,14 @@ File model: header ++ block payloads ++ footer, payloads opaque. What is proved 
 composition: a file the library wrote (header tables consistent with the payloads) is decoded by the
 reader to exactly the header and payloads it was built from, and re-encoding those gives back the same
 bytes — so the raw save is a fixed point *provided every block's `Sync` is reversible* (reading a payload and
-writing it again gives the payload). That block-level fact is established per block type and version by the
-differential campaign of this check (all 304 registered types × 12 versions, populated instances), not by a
-theorem yet (see DESIGN.md §5.3 for the planned generic theorem).
+writing it again gives the payload).
+
+Block level (second half of this file): `translator/schema.py` regenerates, from the `Sync` bodies of the C++ on
+every run, the wire schema of every (block type, version) pair inside the modelled fragment
+(`Generated.schemas`); `Wire/Schema.lean` proves for *every* well-formed schema that re-encoding what the reader
+decoded reproduces the bytes (`Nifly.Schema.wr_rd`), and `all_wf` decides well-formedness of all generated schemas,
+so `block_fixed_point` holds for all of them. Types outside the fragment are listed in `Generated.schemaOpaque`
+and remain covered by the differential campaign only.
 -/
 namespace Nifly.Wire
 
@@ -44,3 +50,51 @@ def sampleHeader : Header :=
 example : (walkFile (encFile sampleHeader [[7], [8, 9]])).isSome = true := by decide
 
 end Nifly.Wire
+
+/-! ### block level: generated schemas -/
+
+namespace Nifly.C01
+open Nifly.Wire Nifly.Schema Nifly.Generated
+
+/-- every generated schema obeys the discipline: conditions and counts read only locations synced earlier on every
+path, and no location is synced twice on a path -/
+theorem all_wf : ∀ s ∈ schemas, (wf 0 s [] []).isSome = true := by decide +kernel
+
+/-- **Block-level fixed point, for every in-fragment block type and version.** Whatever bytes the reader decodes with
+a generated schema, the writer re-emits exactly from the store the reader produced — for every input and every
+environment (header strings). -/
+theorem block_fixed_point (s : Stmt) (hs : s ∈ schemas) (ver : Nat → Nat) (s0 : Store) (b : Bytes) (s1 : Store) (rest : Bytes)
+    (hb : IsBytes b) (hrd : rd ver s s0 [] b = some (s1, rest)) : wr ver s s1 [] ++ rest = b := by
+  have h := all_wf s hs
+  cases hw : wf 0 s [] [] with
+  | none => rw [hw] at h; cases h
+  | some p => exact wr_rd ver s p.2 p.1 s0 b s1 rest hw hb hrd
+
+/-- **What the library writes for an in-fragment block it reads back, consuming exactly the block**, and the store read back
+writes the same bytes again (saving, loading and saving is a fixed point at block level) — for every store whose scalars
+fit their wire widths. -/
+theorem block_write_read (s : Stmt) (hs : s ∈ schemas) (ver : Nat → Nat) (st s0 : Store) (hin : inRange ver s st []) :
+    ∃ s1, rd ver s s0 [] (wr ver s st []) = some (s1, []) ∧ wr ver s s1 [] = wr ver s st [] := by
+  have h := all_wf s hs
+  cases hw : wf 0 s [] [] with
+  | none => rw [hw] at h; cases h
+  | some p => exact rd_wr_same ver s p.1 p.2 st s0 hw hin
+
+/-- the bytes a block occupies are the sum of the widths of the scalars its schema transfers (the size table entry) -/
+theorem block_size (s : Stmt) (ver : Nat → Nat) (st : Store) : (wr ver s st []).length = (widths ver s st []).sum :=
+  wr_length ver s st []
+
+/-- the table is not empty and the hypothesis of `block_fixed_point` is satisfiable: a count-prefixed array -/
+example : schemas.length > 100 := by decide +kernel
+example : (rd (fun _ => 0) (.seq (.sc 2 0) (.rep (.var 0 0) (.sc 1 1))) (fun _ => 0) [] [2, 0, 7, 8, 9]).map
+    (fun r => (r.1 (0, []), r.1 (1, [0]), r.1 (1, [1]), r.2)) = some (2, 7, 8, [9]) := by decide
+
+/-- sensitivity: a schema whose loop count is synced *after* the loop is rejected … -/
+example : wf 0 (.seq (.rep (.var 0 0) (.sc 1 1)) (.sc 2 0)) [] [] = none := by decide
+/-- … and really is not reversible: reading `[9, 1, 0]` with a store whose count slot holds 1 consumes one element,
+then overwrites the count with 1 — re-encoding gives the same bytes here, but with an initial count 1 and input count
+field 0 the writer emits no element at all -/
+example : (rd (fun _ => 0) (.seq (.rep (.var 0 0) (.sc 1 1)) (.sc 2 0)) (Store.set (fun _ => 0) (0, []) 1) [] [9, 0, 0]).map
+    (fun r => wr (fun _ => 0) (.seq (.rep (.var 0 0) (.sc 1 1)) (.sc 2 0)) r.1 [] ++ r.2) = some [0, 0] := by decide
+
+end Nifly.C01
